@@ -2245,13 +2245,13 @@ class Tensor(object):
             if self.Us[m] is None:
                 if self.batch:
                     self.Us[m] = tn.generate_basis(
-                        name, (self.shape[m], self.shape[m])
+                        name, (self.shape[m + 1], self.shape[m + 1])
                     ).repeat(self.shape[0], 1, 1)
                 else:
                     self.Us[m] = tn.generate_basis(name, (self.shape[m], self.shape[m]))
             else:
                 if self.batch:
-                    tn.generate_basis(name, self.Us[m].shape).repeat(
+                    self.Us[m] = tn.generate_basis(name, self.Us[m].shape[-2:]).repeat(
                         self.shape[0], 1, 1
                     )
                 else:
